@@ -107,19 +107,32 @@ func genAccessors(repo, outDir string, rep *Report) (map[string]string, error) {
 	// --- internal/lossy: encoder reconstruction planes (C06)
 	{
 		dir := filepath.Join(repo, "internal/lossy")
-		ok := hasFunc(dir, "VP8Encoder", "EncodeFrame")
+		ok := false
+		for _, w := range rep.Wrapped {
+			if w == "internal/lossy:VP8Encoder.EncodeFrame" {
+				ok = true
+			}
+		}
 		for _, f := range []string{"yPlane", "uPlane", "vPlane", "yStride", "uvStride", "width", "height"} {
 			ok = ok && hasField(dir, "VP8Encoder", f)
 		}
 		note(ok, "lossy.VP8Encoder reconstruction planes")
-		body := "package lossy\n\n// VerifPlanes returns copies of the encoder's reconstruction planes (overlay only).\n"
+		body := "package lossy\n\n"
 		if ok {
-			body += `func (enc *VP8Encoder) VerifPlanes() (w, h int, y, u, v []byte, yStride, uvStride int, ok bool) {
-	return enc.width, enc.height, append([]byte(nil), enc.yPlane...), append([]byte(nil), enc.uPlane...), append([]byte(nil), enc.vPlane...), enc.yStride, enc.uvStride, true
+			body += `import vhookR4 "` + Z + `/vhook"
+
+// EncodeFrame wraps the original method (renamed by the instrumenter) and
+// hands copies of the reconstruction planes to the harness (overlay only).
+func (enc *VP8Encoder) EncodeFrame() ([]byte, error) {
+	bs, err := enc.EncodeFrameVerifOrig()
+	if f := vhookR4.PlanesFn; f != nil && err == nil {
+		f(enc.width, enc.height, append([]byte(nil), enc.yPlane...), append([]byte(nil), enc.uPlane...), append([]byte(nil), enc.vPlane...), enc.yStride, enc.uvStride)
+	}
+	return bs, err
 }
 `
 		} else {
-			body += "func (enc *VP8Encoder) VerifPlanes() (w, h int, y, u, v []byte, yStride, uvStride int, ok bool) { return }\n"
+			body += "// (EncodeFrame wrapper not generated: method or fields not found)\n"
 		}
 		if err := emit("internal/lossy", body); err != nil {
 			return nil, err
